@@ -32,6 +32,14 @@ static const char *want_op = NULL;
 static void fill(unsigned char *p, size_t n, unsigned seed) { size_t i; unsigned x = seed * 2654435761u + 12345u; for (i = 0; i < n; i++) { x = x * 1103515245u + 12345u; p[i] = (unsigned char)(x >> 16); } }
 static void mkkey(unsigned char *k, unsigned seed) { fill(k, 32, seed); k[0] &= 0x7f; k[31] |= 1; }
 
+/* nonce functions whose first answer(s) are rejected for a PUBLIC reason (all-zero / the group order), so that the signer's retry path runs
+ * with a secret nonce from the second attempt on */
+static int retry_nonce_ecdsa(unsigned char *n32, const unsigned char *m, const unsigned char *k, const unsigned char *algo, void *d, unsigned int attempt) {
+    static const unsigned char order[32] = {0xFF,0xFF,0xFF,0xFF,0xFF,0xFF,0xFF,0xFF,0xFF,0xFF,0xFF,0xFF,0xFF,0xFF,0xFF,0xFE,0xBA,0xAE,0xDC,0xE6,0xAF,0x48,0xA0,0x3B,0xBF,0xD2,0x5E,0x8C,0xD0,0x36,0x41,0x41};
+    if (attempt == 0) { memset(n32, 0, 32); return 1; }
+    if (attempt == 1 && d != NULL) { memcpy(n32, order, 32); return 1; }
+    return secp256k1_nonce_function_rfc6979(n32, m, k, algo, NULL, attempt);
+}
 static int ecdh_hash_xy(unsigned char *o, const unsigned char *x, const unsigned char *y, void *d) { (void)d; memcpy(o, x, 32); memcpy(o + 32, y, 32); return 1; }
 
 static void run_all(secp256k1_context *ctx, int nvariants) {
@@ -45,6 +53,8 @@ static void run_all(secp256k1_context *ctx, int nvariants) {
         BEGIN(); SECRET(key, 32); ret = secp256k1_ec_pubkey_create(ctx, &pk, key); PUBLIC(&pk, sizeof pk); PUBLIC(&ret, sizeof ret); PUBLIC(key, 32); END("ec_pubkey_create", v); REQUIRE(ret);
         BEGIN(); SECRET(key, 32); ret = secp256k1_ecdsa_sign(ctx, &sig, msg, key, NULL, NULL); PUBLIC(&sig, sizeof sig); PUBLIC(&ret, sizeof ret); PUBLIC(key, 32); END("ecdsa_sign", v); REQUIRE(ret);
         BEGIN(); SECRET(key, 32); SECRET(aux, 32); ret = secp256k1_ecdsa_sign(ctx, &sig, msg, key, secp256k1_nonce_function_rfc6979, aux); PUBLIC(&sig, sizeof sig); PUBLIC(&ret, sizeof ret); PUBLIC(key, 32); PUBLIC(aux, 32); END("ecdsa_sign_extra_entropy", v); REQUIRE(ret);
+        BEGIN(); SECRET(key, 32); ret = secp256k1_ecdsa_sign(ctx, &sig, msg, key, retry_nonce_ecdsa, (v & 1) ? (void *)msg : NULL); PUBLIC(&sig, sizeof sig); PUBLIC(&ret, sizeof ret); PUBLIC(key, 32); END("ecdsa_sign_nonce_retry", v); REQUIRE(ret);
+        BEGIN(); SECRET(key, 32); ret = secp256k1_ecdsa_sign_recoverable(ctx, &rsig, msg, key, retry_nonce_ecdsa, NULL); PUBLIC(&rsig, sizeof rsig); PUBLIC(&ret, sizeof ret); PUBLIC(key, 32); END("ecdsa_sign_recoverable_nonce_retry", v); REQUIRE(ret);
         BEGIN(); SECRET(key, 32); ret = secp256k1_ecdsa_sign_recoverable(ctx, &rsig, msg, key, NULL, NULL); PUBLIC(&rsig, sizeof rsig); PUBLIC(&ret, sizeof ret); PUBLIC(key, 32); END("ecdsa_sign_recoverable", v); REQUIRE(ret);
         BEGIN(); SECRET(key, 32); ret = secp256k1_ecdh(ctx, out, &pk2, key, NULL, NULL); PUBLIC(out, 32); PUBLIC(&ret, sizeof ret); PUBLIC(key, 32); END("ecdh", v); REQUIRE(ret);
         BEGIN(); SECRET(key, 32); ret = secp256k1_ecdh(ctx, out, &pk2, key, ecdh_hash_xy, NULL); PUBLIC(out, 64); PUBLIC(&ret, sizeof ret); PUBLIC(key, 32); END("ecdh_custom_hash", v); REQUIRE(ret);
